@@ -159,6 +159,9 @@ def tool_case(src, mexe, idx, seed, tier):
         menu.append("shrink")
         menu.append("nudge")
     menu.append("primary_only")
+    if fs0.compat & COMPAT_HAS_JOURNAL and not fs0.ro_compat & RO_BIGALLOC:
+        menu.append("dirty_journal_tune")
+        menu.append("dirty_journal_tune")
     plan = [r.choice(menu) for _ in range(r.randint(0, 3))]
     if idx % 3 == 1:
         plan.append("nudge")
@@ -168,14 +171,25 @@ def tool_case(src, mexe, idx, seed, tier):
     if wide:
         plan = ["shrink"] + plan[:1]
     for m in plan:
-        if m == "primary_only":
+        if m == "dirty_journal_tune":
+            # a committed transaction waits in the journal: tune2fs replays it first (the journal code reopens the filesystem)
+            # and what it changes afterwards still has to reach every backup
+            fsn = Fs(img)
+            blk_ = fsn.blocks_count - 3
+            step([T("debugfs/debugfs"), "-w", "-f", "-", img], inp=("jo\njw -b %d /dev/zero\njc\n" % blk_).encode())
+            step(r.choice([[T("misc/tune2fs"), "-U", "89abcdef-0123-4567-89ab-cdef01234567", img],
+                           [T("misc/tune2fs"), "-L", "dj%d" % idx, "-O", "^dir_index", img]]))
+        elif m == "primary_only":
             # a compat feature set in the primary superblock only (debugfs writes the master copy, like the kernel's on-the-fly
             # flags); the repairing e2fsck that follows has to bring every backup up to date
             fsn = Fs(img)
+            # ... also when the primary superblock says "errors detected" at that moment (e2fsck sets the state to valid and
+            # has to look at the backups after that)
+            st_ = b"ssv state 2\n" if r.random() < 0.5 else b""
             if fsn.compat & 0x8:
-                step([T("debugfs/debugfs"), "-w", "-R", "feature stable_inodes", img])
+                step([T("debugfs/debugfs"), "-w", "-f", "-", img], inp=b"feature stable_inodes\n" + st_)
             else:
-                step([T("debugfs/debugfs"), "-w", "-f", "-", img], inp=b"feature ext_attr\nea_set f2 user.k1 value_one\nea_set d user.k2 v2\n")
+                step([T("debugfs/debugfs"), "-w", "-f", "-", img], inp=b"feature ext_attr\nea_set f2 user.k1 value_one\nea_set d user.k2 v2\n" + st_)
             step([T("e2fsck/e2fsck"), "-fy", img])
             try:
                 tree_start = tree(Fs(img))
